@@ -670,6 +670,15 @@ class Check(PropertyCheck):
                 noracle += 1
                 out.append(Violation('oracle', msg, case=c, observed=r))
         self.evaluations += len(cases)
+        # shrink the three smallest failing inventories line by line
+        orc = sorted([v for v in out if v.kind == 'oracle' and v.case.get('k') == 'fetch'], key=lambda v: len(json.dumps(v.case)))
+        for v in orc[:3]:
+            small = self.shrink_fetch(v.case, v.what)
+            if small is not v.case:
+                o = lib.run_impl_worker(WORKER, [small])[0]
+                m = oracle_fetch(small, o)
+                if m:
+                    v.case, v.observed, v.what = small, o, m
 
     def check_projects(self, cases: List[Dict[str, Any]], out: List[Violation]) -> None:
         impl = lib.run_impl_worker(WORKER, cases, jobs=8 if len(cases) >= 32 else 1)
@@ -802,7 +811,7 @@ class Check(PropertyCheck):
         return out
 
     def shrink_fetch(self, case: Dict[str, Any], msg: str) -> Dict[str, Any]:
-        """delta-debug the lines of a single-fetch case whose payload decodes"""
+        """delta-debug the lines of a single-fetch case whose payload decodes (one worker call per round)"""
         try:
             (u, d), = case['fetches']
             data = bytes.fromhex(d)
@@ -811,21 +820,29 @@ class Check(PropertyCheck):
         except Exception:  # noqa
             return case
 
-        def fails(ls: List[str]) -> bool:
-            c = fetch_case([(u, data[:hdr_len] + zlib.compress('\n'.join(ls).encode('utf-8', 'surrogatepass')))], case.get('queries', []))
-            o = lib.run_impl_worker(WORKER, [c])[0]
-            return oracle_fetch(c, o) is not None
+        def mk(ls: List[str]) -> Dict[str, Any]:
+            return fetch_case([(u, data[:hdr_len] + zlib.compress('\n'.join(ls).encode('utf-8', 'surrogatepass')))],
+                              case.get('queries', []))
         cur = lines
-        changed = True
-        while changed and len(cur) > 1:
-            changed = False
-            for i in range(len(cur)):
-                t = cur[:i] + cur[i + 1:]
-                if fails(t):
-                    cur = t
-                    changed = True
+        if oracle_fetch(mk(cur), lib.run_impl_worker(WORKER, [mk(cur)])[0]) is None:
+            return case
+        for _ in range(200):
+            if len(cur) <= 1:
+                break
+            cands = [cur[:i] + cur[i + 1:] for i in range(len(cur))]
+            cs = [mk(t) for t in cands]
+            obs = lib.run_impl_worker(WORKER, cs)
+            nxt = None
+            for t, c, o in zip(cands, cs, obs):
+                if oracle_fetch(c, o) is not None:
+                    nxt = t
                     break
-        return fetch_case([(u, data[:hdr_len] + zlib.compress('\n'.join(cur).encode('utf-8', 'surrogatepass')))], case.get('queries', []))
+            if nxt is None:
+                break
+            cur = nxt
+        out = mk(cur)
+        out['kind'] = 'shrunk'
+        return out
 
     def classify_known(self, v: Violation, known: List[dict]) -> Optional[dict]:
         if v.kind != 'oracle' or not isinstance(v.case, dict) or v.case.get('k') != 'project':
